@@ -46,6 +46,7 @@ del t["events"][i]
 show("Images", v0, verdicts("Trace_Images", "Trace_Images.cfg", m, extra), "removing one recorded add (a missing hook)")
 # --- Forest
 trs, objs = c11._prep(suite)
+trs = trs[:8]
 v0 = verdicts("Trace_Forest", "Trace_Forest.cfg", trs, {"objs": objs})
 m = copy.deepcopy(trs)
 t = [t for t in m if any(e["c"] != "ROOT" for e in t["events"])][0]
